@@ -119,7 +119,7 @@ func (ye *YouTubeExtractor) getDataFromSrcURL(srcURL string) (string, map[string
 		srcURL = "http:" + srcURL
 	}
 
-	parsedURL, err := nurl.ParseRequestURI(srcURL)
+	parsedURL, err := nurl.Parse(srcURL)
 	if err != nil {
 		return "", nil
 	}
